@@ -386,6 +386,7 @@ fn main() {
                         rep.add("obs_pause_resume_cycles", seen.pause_resume_cycles);
                         rep.add("obs_prior_fault_preludes", seen.prior_fault_preludes);
                         rep.add("obs_stops_with_services_not_ready", seen.unready_at_stop);
+                        rep.add("obs_faults_with_every_other_worker_saturated", seen.faults_when_saturated);
                         rep.rule = "real server, workers 1..3 x limit 1..3 x listeners {TCP, UDS, TCP+UDS, TCP+TCP} x {Actix, Tokio}: 2..8 client threads each making 2..11 connections (hold / finish-at-once / abort, random early releases), optional pause+resume in the middle, failpoints on both sides of the worker queue; \
                                     then a barrier-reached quiescent point (nothing accepted is undispatched, no open client closed unserved, unserved clients are explained by backlog + capacity), a burst queued behind the limit, stop (graceful or forced) and join; \
                                     oracles over the ordered log and the client sockets: every cid identified at most once, by an instance of the listener it connected to; accepted = dispatched + dropped; after shutdown every client sees its socket closed; no call after a graceful stop resolved; open-fd count returns to its value before the server started. \
@@ -519,6 +520,8 @@ fn main() {
                         rep.add("obs_late_clients_before_stop", seen.late_clients);
                         rep.add("obs_worker_stall_scenarios", seen.stall_scenarios);
                         rep.add("obs_stops_while_worker_mid_poll", seen.mid_poll_scenarios);
+                        rep.add("obs_system_exit_in_plain_tokio_runtime", seen.system_exit_without_system);
+                        rep.add("obs_max_shutdown_timeout_scenarios", seen.max_timeout_scenarios);
                         rep.add("signal_runs_repeated_because_signal_preceded_handler_installation", seen.signal_before_handlers);
                         rep.add("obs_sigterm_runs", seen.signal_runs_term);
                         rep.add("obs_sigint_sigquit_runs", seen.signal_runs_forced);
